@@ -322,6 +322,16 @@ def main(argv=None):
                    "digest": r["digest"], "simlat_version": 1}, f, indent=1)
       print("VIOLATION property=%s replay=%s" % (prop, path), flush=True)
 
+  # Rejected configurations void a run; many of them mean the generator (or
+  # the library's validation) has drifted - never a silent pass.
+  rejected = [r for r in good if r.get("rejected")]
+  if len(rejected) > max(3, 0.02 * len(good)):
+    harness_errors.append(
+        "%d of %d generated configurations were rejected by the library at "
+        "construction, e.g. run %d: %s" % (len(rejected), len(good),
+                                           rejected[0]["index"],
+                                           rejected[0]["rejected"]))
+
   # Reach gate (thorough tier): a probe stuck at zero means the workload or
   # fault mix does not reach what the oracle needs.
   reach_missing = []
@@ -379,6 +389,7 @@ def main(argv=None):
           "other_counters": {k: v for k, v in sorted(stats.items())
                              if not k.startswith(("fault:", "reach:"))},
           "known_findings_hit": {k: len(v) for k, v in known_hits.items()},
+          "rejected_configurations": len([r for r in good if r.get("rejected")]),
           "violation_classes": {k: len(v) for k, v in by_class.items()},
           "replays": [m["path"] for m in reported],
           "determinism": {
